@@ -647,7 +647,8 @@ func (c *compiler) compile(tok *token) []instruction {
 		res = append(res, c.compileAll(tok.Tokens[callArguments].Tokens)...)
 		if slices.Contains([]string{"byte", "uint8", "int8", "int", "int32", "rune", "uint32", "uint", "int64", "uint64", "int16", "uint16", "float64", "string", "[]"}, tok.Tokens[callName].Symbol) {
 			res = append(res, instruction{Code: codeConvert, A: reg(convMap[tok.Tokens[callName].Symbol])})
-		} else if code := builtinMap[tok.Tokens[callName].Text]; code != 0 {
+		} else if code := builtinMap[tok.Tokens[callName].Text]; code != 0 && !c.Locals.Exists(tok.Tokens[callName].Text) && !c.Globals.Exists(c.expPrefix(tok.Tokens[callName].Text)) {
+			// len, delete, append, panic, copy - unless the program declares something of that name itself
 			ellipsis := 0
 			args := tok.Tokens[callArguments].Tokens
 			if len(args) > 0 && args[len(args)-1].Symbol == "..." {
